@@ -13,8 +13,11 @@ def run(cmd, cwd, timeout=600):
     except subprocess.TimeoutExpired:
         return 124, "timeout"
 
+SRC = "/tmp/seed"
+OFFSET = 0
+
 def confirm(pid, k):
-    src = "/tmp/seed/%s/out/%s" % (pid, k)
+    src = "%s/%s/out/%s" % (SRC, pid, k)
     patch, demo = os.path.join(src, "patch.diff"), os.path.join(src, "demo_test.go")
     if not (os.path.exists(patch) and os.path.exists(demo)):
         return None
@@ -37,7 +40,15 @@ def confirm(pid, k):
             if rc_s == 0:
                 suite_ok = True
                 break
-            if "Proxy" not in out_s and "TLSValidation" not in out_s:
+            fails = set(l.split()[2] for l in out_s.splitlines() if l.startswith("--- FAIL:"))
+            if not fails or any(not ("Proxy" in f or "TLSValidation" in f) for f in fails):
+                break
+            # only the load-sensitive proxy/TLS dial tests failed (they fail on the clean tree too when the machine is
+            # loaded): rerun single-threaded, where they are stable
+            rc_s, out_s = run("GOMAXPROCS=1 go test -vet=off -count=1 . ", d)
+            suite_runs.append(rc_s)
+            if rc_s == 0:
+                suite_ok = True
                 break
         shutil.copy(demo, os.path.join(d, "demo_test.go"))
         rc_demo, out_demo = run("go test -vet=off -count=1 %s . " % runpat, d)
@@ -49,12 +60,18 @@ def confirm(pid, k):
 
 def main():
     props = {json.loads(l)["id"]: json.loads(l) for l in open("/verif/properties.jsonl")}
-    only = sys.argv[1:]
+    global SRC, OFFSET
+    argv = sys.argv[1:]
+    if "--src" in argv:
+        i = argv.index("--src"); SRC = argv[i + 1]; del argv[i:i + 2]
+    if "--offset" in argv:
+        i = argv.index("--offset"); OFFSET = int(argv[i + 1]); del argv[i:i + 2]
+    only = argv
     for pid in sorted(props):
         if only and pid not in only:
             continue
         for k in ("1", "2", "3"):
-            dst = "/verif/seeded/%s-%s" % (pid, k)
+            dst = "/verif/seeded/%s-%d" % (pid, int(k) + OFFSET)
             if os.path.exists(os.path.join(dst, "meta.json")):
                 continue
             res = confirm(pid, k)
@@ -62,11 +79,11 @@ def main():
                 continue
             print(pid, k, "CONFIRMED" if res["ok"] else "REJECTED", json.dumps({a: b for a, b in res.items() if a.endswith("rc") or a == "suite_runs"}), flush=True)
             if not res["ok"]:
-                os.makedirs("/tmp/seed/rejected", exist_ok=True)
-                json.dump(res, open("/tmp/seed/rejected/%s-%s.json" % (pid, k), "w"), indent=1)
+                os.makedirs(SRC + "/rejected", exist_ok=True)
+                json.dump(res, open(SRC + "/rejected/%s-%s.json" % (pid, k), "w"), indent=1)
                 continue
             os.makedirs(dst, exist_ok=True)
-            src = "/tmp/seed/%s/out/%s" % (pid, k)
+            src = "%s/%s/out/%s" % (SRC, pid, k)
             shutil.copy(os.path.join(src, "patch.diff"), dst)
             shutil.copy(os.path.join(src, "demo_test.go"), os.path.join(dst, "demo_test.go.txt"))
             notes = open(os.path.join(src, "notes.md")).read() if os.path.exists(os.path.join(src, "notes.md")) else ""
